@@ -438,7 +438,8 @@ class Index(IndexBase):
                         self._map = labels._map
                 # get a reference to the immutable arrays, even if this is an IndexGO index, we can take the cached arrays, assuming they are up to date; for datetime64 indices, we might need to translate to a different type
                 positions = labels._positions
-                loc_is_iloc = labels._map is None
+                # an index without a map holds its positions as labels: only true of the new index if the labels are not converted
+                loc_is_iloc = labels._map is None and not is_typed
                 labels = labels._labels
             else: # IndexHierarchy
                 # will be a generator of tuples; already updated caches
